@@ -136,7 +136,7 @@ func ruleC01Roots(c *Ctx) {
 			}
 		}
 		for _, ch := range chans {
-			if call, ok := ch.(*ssa.Call); ok && call.Call.IsInvoke() && call.Call.Method.Name() == "Done" {
+			if call, ok := ch.(*ssa.Call); ok && call.Call.IsInvoke() && mname(call.Call.Method) == "Done" {
 				continue // ctx.Done()
 			}
 			f, _ := c.chanIdent(ch)
@@ -171,7 +171,7 @@ func ruleC01Roots(c *Ctx) {
 		if strings.HasPrefix(q, "fmt.Fprint") {
 			for _, e := range c.sliceElemValues(call.Call.Args[len(call.Call.Args)-1]) {
 				if mi, ok := e.(*ssa.MakeInterface); ok {
-					if inner, ok := mi.X.(*ssa.Call); ok && inner.Call.StaticCallee() != nil && inner.Call.StaticCallee().String() == modQ("/git", "OID", "String") {
+					if inner, ok := mi.X.(*ssa.Call); ok && inner.Call.StaticCallee() != nil && refQ(inner.Call.StaticCallee()) == modQ("/git", "OID", "String") {
 						continue
 					}
 				}
@@ -221,14 +221,14 @@ func ruleC01Roots(c *Ctx) {
 		}
 		arg := c.resolve(call.Call.Args[1])
 		oidCall, ok := arg.(*ssa.Call)
-		if !ok || !oidCall.Call.IsInvoke() || oidCall.Call.Method.Name() != "OID" {
+		if !ok || !oidCall.Call.IsInvoke() || mname(oidCall.Call.Method) != "OID" {
 			c.violate("C01.roots", key+":arg", call.Pos(), key, "the id passed to AddRoot is not root.OID()")
 			continue
 		}
 		root := c.resolve(oidCall.Call.Value)
 		guarded := guardedBy(call.Block(), func(cond ssa.Value, truth bool) bool {
 			w, ok := cond.(*ssa.Call)
-			return ok && truth && w.Call.IsInvoke() && w.Call.Method.Name() == "Walk" && c.resolve(w.Call.Value) == root
+			return ok && truth && w.Call.IsInvoke() && mname(w.Call.Method) == "Walk" && c.resolve(w.Call.Value) == root
 		})
 		if guarded {
 			c.hold("C01.roots", key+":walk-guard", call.Pos(), "AddRoot(root.OID()) only under root.Walk()==true for the same root")
@@ -243,7 +243,7 @@ func ruleC01Roots(c *Ctx) {
 				continue
 			}
 			cond, _ := normCond(fct.Cond, fct.Truth)
-			if w, ok := cond.(*ssa.Call); ok && w.Call.IsInvoke() && w.Call.Method.Name() == "Walk" {
+			if w, ok := cond.(*ssa.Call); ok && w.Call.IsInvoke() && mname(w.Call.Method) == "Walk" {
 				continue
 			}
 			extra = strings.TrimSpace(cond.String())
@@ -533,7 +533,7 @@ func ruleC01Effects(c *Ctx) {
 				if ok {
 					pcall, _ = ex.Tuple.(*ssa.Call)
 				}
-				if pcall == nil || pcall.Call.StaticCallee() == nil || pcall.Call.StaticCallee().String() != modQ("/git", "", reg.parse) {
+				if pcall == nil || pcall.Call.StaticCallee() == nil || refQ(pcall.Call.StaticCallee()) != modQ("/git", "", reg.parse) {
 					c.violate("C01.effects", "provenance:"+reg.name+":parsed", call.Pos(), fnName(si.Fn), "the object registered is not the result of git."+reg.parse)
 					continue
 				}
